@@ -113,12 +113,19 @@ static void RunCleanup(vf::BS & bs)
    w.Pump();
    gencmd::Opts o; o.victimHost = w.c[1]->host; o.victimId = w.c[1]->id; o.aimAtVictim = true;
    std::string hist; bool usedQuiet = false; uint64_t h = 23;
-   const uint32 n1 = bs.u8()%12;
+   const uint8_t n1b = bs.u8(); const uint32 n1 = n1b%12; const uint32 mute = (n1b/12)%4;      // mute 1,2: the leaver switches its updates off, drops its subscriptions while muted (2: and switches them on again) before it goes
    for (uint32 i=0; (i<n1)&&(w.c[0]->connected); i++) {std::string d; MessageRef cmd = gencmd::GenCmd(bs, 0, o, &d); if ((d.find("QUIET") != std::string::npos)||(cmd()->HasName(PR_NAME_REMOVE_QUIETLY))||(cmd()->HasName(PR_NAME_FLAGS))||(cmd()->what == PR_COMMAND_BATCH)) usedQuiet = true; if (hist.size() < 900) hist += d+"; "; (void) w.Send(0, cmd); if (bs.flip()) w.Pump(); h = vf::HashStr(d, h);}
    // some own nodes for sure, then a last burst that only partly reaches the server
    {MessageRef m = GetMessageFromPool(PR_COMMAND_SETDATA); MessageRef d = GetMessageFromPool(9); (void) m()->AddMessage("k", d); (void) m()->AddMessage("k/deep/er", d); (void) w.Send(0, m);}
    {MessageRef m = GetMessageFromPool(PR_COMMAND_SETPARAMETERS); (void) m()->AddBool((String("SUBSCRIBE:")+w.c[1]->root.c_str()+"/*"), true); (void) m()->AddBool("SUBSCRIBE:/*/*/*/*", true); (void) w.Send(0, m);}
    if (w.c[0]->connected) w.Pump();
+   if (((mute == 1)||(mute == 2))&&(w.c[0]->connected))
+   {
+      {MessageRef m = GetMessageFromPool(PR_COMMAND_SETPARAMETERS); (void) m()->AddBool(PR_NAME_DISABLE_SUBSCRIPTIONS, true); (void) w.Send(0, m);}
+      {MessageRef m = GetMessageFromPool(PR_COMMAND_REMOVEPARAMETERS); (void) m()->AddString(PR_NAME_KEYS, (bs.flip()) ? "SUBSCRIBE:*" : "SUBSCRIBE:/\\*/\\*/\\*/\\*"); (void) w.Send(0, m);}
+      if (mute == 2) {MessageRef m = GetMessageFromPool(PR_COMMAND_REMOVEPARAMETERS); (void) m()->AddString(PR_NAME_KEYS, PR_NAME_DISABLE_SUBSCRIPTIONS); (void) w.Send(0, m);}
+      hist += "(leaver mutes its updates, drops subscriptions while muted"+std::string((mute == 2) ? ", unmutes" : "")+"); "; w.Pump(); vf::Count("case_leaver_dropped_subscriptions_while_muted");
+   }
    const uint32 n2 = 1+bs.u8()%3; uint32 pendingBytes = 0;
    for (uint32 i=0; (i<n2)&&(w.c[0]->connected); i++) {std::string d; MessageRef cmd = gencmd::GenCmd(bs, 0, o, &d); if ((cmd()->HasName(PR_NAME_REMOVE_QUIETLY))||(cmd()->HasName(PR_NAME_FLAGS))||(cmd()->what == PR_COMMAND_BATCH)) usedQuiet = true; if (hist.size() < 1100) hist += "(last burst) "+d+"; "; pendingBytes += cmd()->FlattenedSize()+8; (void) w.Send(0, cmd); h = vf::HashStr(d, h);}
    const uint32 cut = bs.range(0, 1023); uint32 sent = 0;
